@@ -24,9 +24,11 @@ import (
 	"sort"
 	"strings"
 	"testing"
+	"time"
 
 	"github.com/bufbuild/buf/private/buf/buftarget"
 	"github.com/bufbuild/buf/private/buf/bufworkspace"
+	"github.com/bufbuild/buf/private/bufpkg/bufcas"
 	"github.com/bufbuild/buf/private/bufpkg/bufconfig"
 	"github.com/bufbuild/buf/private/bufpkg/bufimage"
 	"github.com/bufbuild/buf/private/bufpkg/bufmodule"
@@ -39,6 +41,7 @@ import (
 	"github.com/bufbuild/bufverif/internal/bufx"
 	"github.com/bufbuild/bufverif/internal/evid"
 	"github.com/bufbuild/bufverif/internal/protogen"
+	"github.com/google/uuid"
 	"google.golang.org/protobuf/proto"
 	"pgregory.net/rapid"
 )
@@ -964,6 +967,14 @@ func TestReplay(t *testing.T) {
 	}
 	r := evid.R()
 	defer r.Begin(t)()
+	if c.Layout == "pins" {
+		var pc PinCase
+		if _, err := evid.ReplayCase(&pc); err != nil {
+			t.Fatal(err)
+		}
+		runPins(context.Background(), t, r, &pc)
+		return
+	}
 	switch c.Layout {
 	case "api":
 		runAPI(context.Background(), t, r, &c)
@@ -972,4 +983,129 @@ func TestReplay(t *testing.T) {
 	default:
 		runWorkspace(context.Background(), t, r, &c)
 	}
+}
+
+// ---------------------------------------------------------------------------------------------
+// test 4: several pinned commits of one remote module: the newest wins; a local module of that name wins over all
+
+type commitProvider struct {
+	times map[uuid.UUID]time.Time
+}
+
+func (p *commitProvider) GetCommitsForModuleKeys(_ context.Context, keys []bufmodule.ModuleKey) ([]bufmodule.Commit, error) {
+	out := make([]bufmodule.Commit, len(keys))
+	for i, k := range keys {
+		ct, ok := p.times[k.CommitID()]
+		if !ok {
+			return nil, errors.New("unknown commit")
+		}
+		out[i] = bufmodule.NewCommit(k, func() (time.Time, error) { return ct, nil })
+	}
+	return out, nil
+}
+
+func (p *commitProvider) GetCommitsForCommitKeys(context.Context, []bufmodule.CommitKey) ([]bufmodule.Commit, error) {
+	return nil, errors.New("unexpected")
+}
+
+// PinCase is the replayable input of TestNewestPinnedCommit.
+type PinCase struct {
+	Layout    string `json:"layout"`
+	Hours     []int  `json:"create_time_hours"` // per pinned commit, in the order they are added; all distinct
+	LocalToo  bool   `json:"local_too"`
+	Duplicate bool   `json:"duplicate_key"` // the first key is added twice
+}
+
+func runPins(ctx context.Context, t interface {
+	Fatalf(string, ...any)
+	Helper()
+}, r *evid.Recorder, c *PinCase) {
+	name, err := bufparse.ParseFullName("buf.build/acme/dep")
+	if err != nil {
+		t.Fatalf("harness: %v", err)
+	}
+	cp := &commitProvider{times: map[uuid.UUID]time.Time{}}
+	base := time.Date(2024, 1, 1, 0, 0, 0, 0, time.UTC)
+	var keys []bufmodule.ModuleKey
+	var newest uuid.UUID
+	best := -1
+	for i, h := range c.Hours {
+		id := bufx.CommitUUID(fmt.Sprintf("pin-%d-%d", i, h))
+		cp.times[id] = base.Add(time.Duration(h) * time.Hour)
+		if h > best {
+			best, newest = h, id
+		}
+		cd, err := bufcas.NewDigestForContent(strings.NewReader(id.String()))
+		if err != nil {
+			t.Fatalf("harness: %v", err)
+		}
+		d, err := bufmodule.NewDigest(bufmodule.DigestTypeB5, cd)
+		if err != nil {
+			t.Fatalf("harness: %v", err)
+		}
+		k, err := bufmodule.NewModuleKey(name, id, func() (bufmodule.Digest, error) { return d, nil })
+		if err != nil {
+			t.Fatalf("harness: %v", err)
+		}
+		keys = append(keys, k)
+	}
+	local, err := storagemem.NewReadBucket(map[string][]byte{"a/a.proto": []byte("syntax = \"proto3\";\npackage a;\n")})
+	if err != nil {
+		t.Fatalf("harness: %v", err)
+	}
+	localDep, err := storagemem.NewReadBucket(map[string][]byte{"dep/dep.proto": []byte("syntax = \"proto3\";\npackage dep;\n")})
+	if err != nil {
+		t.Fatalf("harness: %v", err)
+	}
+	// candidate order inside the builder goes through maps: repeat
+	for iter := 0; iter < 12; iter++ {
+		b := bufmodule.NewModuleSetBuilder(ctx, bufx.Logger, bufmodule.NopModuleDataProvider, cp)
+		b.AddLocalModule(local, "local", true)
+		if c.LocalToo {
+			b.AddLocalModule(localDep, "localdep", false, bufmodule.LocalModuleWithFullName(name))
+		}
+		for i, k := range keys {
+			b.AddRemoteModule(k, false)
+			if i == 0 && c.Duplicate {
+				b.AddRemoteModule(k, false)
+			}
+		}
+		ms, err := b.Build()
+		r.Eval()
+		if err != nil {
+			r.Fail(t, "module-set-build-failed", fmt.Sprintf("pins %v local=%v: %v", c.Hours, c.LocalToo, err), c)
+			return
+		}
+		mod := ms.GetModuleForFullName(name)
+		if mod == nil {
+			r.Fail(t, "module-missing", fmt.Sprintf("pins %v: the pinned module is not in the module set", c.Hours), c)
+			return
+		}
+		if c.LocalToo {
+			if !mod.IsLocal() {
+				r.Fail(t, "local-over-remote", fmt.Sprintf("pins %v + a local module of the same name: the module set uses a remote commit", c.Hours), c)
+				return
+			}
+			continue
+		}
+		if mod.CommitID() != newest {
+			r.Fail(t, "newest-commit", fmt.Sprintf("pins with create times (hours) %v: resolved the commit created at +%v, the newest is +%dh (iteration %d)", c.Hours, cp.times[mod.CommitID()].Sub(base), best, iter), c)
+			return
+		}
+	}
+	r.Class(fmt.Sprintf("pins-%d", len(c.Hours)))
+	if len(c.Hours) >= 3 {
+		r.NonTrivial(fmt.Sprintf("pins|%v|%v|%v", c.Hours, c.LocalToo, c.Duplicate))
+	}
+}
+
+func TestNewestPinnedCommit(t *testing.T) {
+	r := evid.R()
+	ctx := context.Background()
+	r.Check(t, r.Scale(300, 6000), 4, func(t *rapid.T) {
+		n := rapid.IntRange(1, 6).Draw(t, "pins")
+		hours := rapid.Permutation([]int{1, 2, 3, 5, 8, 13, 21, 34}).Draw(t, "hours")[:n]
+		c := &PinCase{Layout: "pins", Hours: hours, LocalToo: rapid.IntRange(0, 4).Draw(t, "localtoo") == 0, Duplicate: rapid.Bool().Draw(t, "dup")}
+		runPins(ctx, t, r, c)
+	})
 }
